@@ -1097,6 +1097,9 @@ def run(ctx):
     # PART B
     mult = 4 if (ctx.broken and not ctx.fail_inputs) else 1
     run_pools(ctx, gen_pool_jobs(ctx, ctx.budget(500, 5000) * mult))
+    # PART C: in-place operations applied to composites / copies AFTER composition (harness/props/c12_hist.py)
+    from . import c12_hist
+    c12_hist.run_hist(ctx, c12_hist.gen_hist_jobs(ctx, ctx.budget(700, 7000) * mult))
     ctx.assumptions.append("C12: results names, Each, Or-flattening and the value semantics of the real object graph are decided "
                            "by the real-code oracle; the theorems speak about the parse model and the table transformations")
 
@@ -1114,6 +1117,9 @@ def replay(data):
             return bool(r["mism"])
         if k in ("pool", "copy"):
             return bool(replay_pool(c))
+        if k == "mut":
+            from . import c12_hist
+            return bool(c12_hist.replay_hist(c))
         if k == "witness":
             for sig, fn, _ in WITNESSES:
                 if sig == c["witness"]:
